@@ -137,6 +137,12 @@ pub fn run_lines(sh: &mut shell::Shell,
 }
 
 fn expand_args(line: &str, args: &[String]) -> String {
+    // a line without positional parameters is left exactly as written:
+    // re-rendering the tokens is lossy (e.g. `a||b`, `\|`, `'x'y`).
+    if !is_args_in_token(line) {
+        return line.to_string();
+    }
+
     let linfo = parsers::parser_line::parse_line(line);
     let mut tokens = linfo.tokens;
     expand_args_in_tokens(&mut tokens, args);
